@@ -8,9 +8,8 @@ Cursor's six primitives over `CharIndices` (bump, eatc, current_str, prev_str, d
 NOT verified here: they are shims with a ghost model (the characters of the source, how many the iterator has yielded,
 where the current token starts, whether one read character is pushed back), written from their bodies.
 
-One block of `advance` is dropped by a listed rewrite: the surrogate check of a completed \\uXXXX escape
-(`let hex_end = self.offset + 1; ... if char::from_u32(code_point).is_none() { ... }`), which slices the source by byte offsets
-(outside Verus) and does not touch the cursor position; it is replaced by an opaque call that may only record an error.
+Nothing of `advance` is dropped.  Two listed rewrites: `&self.source[a..b]` -> `str_slice(self.source, a, b)` (Verus has no byte-range
+slicing of &str; the shim's precondition is exactly "a <= b and both are char boundaries", i.e. the slice does not panic).
 """
 LX = "crates/apollo-parser/src/lexer/mod.rs"
 
@@ -19,6 +18,31 @@ PRELUDE = r'''
 pub assume_specification[ char::is_ascii_digit ](c: &char) -> (r: bool) ensures r == ('0' <= *c <= '9');
 pub assume_specification[ char::is_ascii_hexdigit ](c: &char) -> (r: bool)
     ensures r == (('0' <= *c <= '9') || ('a' <= *c <= 'f') || ('A' <= *c <= 'F'));
+
+pub open spec fn hexdigit(c: char) -> bool { ('0' <= c <= '9') || ('a' <= c <= 'f') || ('A' <= c <= 'F') }
+#[verifier::external_type_specification]
+#[verifier::external_body]
+pub struct ExParseIntError(core::num::ParseIntError);
+// u32::from_str_radix: 1..=8 hex digits always fit a u32 (std documentation) -- assumed
+pub assume_specification[ u32::from_str_radix ](src: &str, radix: u32) -> (r: Result<u32, core::num::ParseIntError>)
+    ensures (radix == 16 && 1 <= src@.len() <= 8 && forall|i: int| 0 <= i < src@.len() ==> hexdigit(#[trigger] src@[i])) ==> r is Ok;
+pub assume_specification[ char::from_u32 ](i: u32) -> (r: Option<char>);
+
+// ---- UTF-8 byte offsets of a &str (what `&s[a..b]` needs) ----
+pub open spec fn utf8_len(c: char) -> int { if (c as u32) < 0x80 { 1 } else if (c as u32) < 0x800 { 2 } else if (c as u32) < 0x10000 { 3 } else { 4 } }
+/// byte offset of the k-th char
+pub open spec fn byte_off(cs: Seq<char>, k: int) -> int decreases k { if k <= 0 { 0 } else { byte_off(cs, k - 1) + utf8_len(cs[k - 1]) } }
+/// `&s[a..b]` (listed rewrite): panics unless a <= b and both are char boundaries within s -- that is the precondition;
+/// returns the chars between the two boundaries.  Assumed std semantics.
+#[verifier::external_body]
+pub fn str_slice<'a>(s: &'a str, a: usize, b: usize) -> (r: &'a str)
+    requires
+        a <= b,
+        exists|i: int| 0 <= i <= s@.len() && byte_off(s@, i) == a,
+        exists|j: int| 0 <= j <= s@.len() && byte_off(s@, j) == b,
+    ensures
+        forall|i: int, j: int| (0 <= i <= j <= s@.len() && byte_off(s@, i) == a && byte_off(s@, j) == b) ==> r@ =~= s@.subrange(i, j),
+{ unimplemented!() }
 
 // ---------------- shims (trusted) ----------------
 #[verifier::external_body]
@@ -100,8 +124,11 @@ impl<'a> Cursor<'a> {
     pub fn bump(&mut self) -> (r: Option<char>)
         requires old(self).m@.wf()
         ensures
-            final(self).offset == old(self).offset, final(self).source == old(self).source, final(self).err == old(self).err,
+            final(self).source == old(self).source, final(self).err == old(self).err,
             final(self).m@.chars == old(self).m@.chars, final(self).m@.start == old(self).m@.start, !final(self).m@.pending,
+            old(self).m@.pending ==> final(self).offset == old(self).offset,
+            // `self.offset = pos`: the byte position of the char just read
+            (!old(self).m@.pending && old(self).m@.read < old(self).m@.chars.len()) ==> final(self).offset == byte_off(old(self).m@.chars, old(self).m@.read as int),
             old(self).m@.pending ==> r == Some(old(self).m@.chars[old(self).m@.read - 1]) && final(self).m@.read == old(self).m@.read,
             (!old(self).m@.pending && old(self).m@.read < old(self).m@.chars.len()) ==> r == Some(old(self).m@.chars[old(self).m@.read as int]) && final(self).m@.read == old(self).m@.read + 1,
             (!old(self).m@.pending && old(self).m@.read >= old(self).m@.chars.len()) ==> r is None && final(self).m@.read == old(self).m@.read,
@@ -152,11 +179,6 @@ impl<'a> Cursor<'a> {
     pub fn add_err(&mut self, err: Error)
         ensures final(self).err == Some(err), final(self).m == old(self).m, final(self).source == old(self).source, final(self).offset == old(self).offset
     { self.err = Some(err) }
-    /// DROPPED BLOCK (listed rewrite): surrogate check of a completed \uXXXX escape; may only record an error.
-    #[verifier::external_body]
-    pub fn shim_check_unicode_escape(&mut self)
-        ensures final(self).m == old(self).m, final(self).source == old(self).source, final(self).offset == old(self).offset
-    { unimplemented!() }
 }
 
 
@@ -203,6 +225,69 @@ pub open spec fn is_float(s: Seq<char>) -> bool { g_fraction(s) || g_exp_digits(
 // lookahead restriction on numbers: not followed by Digit, `.` or NameStart
 pub open spec fn number_may_end_before(next: Option<char>) -> bool { next is Some ==> !digit(next->0) && next->0 != '.' && !name_start(next->0) }
 
+// ---- \uXXXX escapes inside a quoted string: what has just been consumed ----
+#[verifier::opaque]
+pub open spec fn ends_with_backslash(s: Seq<char>) -> bool { s.len() >= 1 && s.last() == '\\' }
+/// `\u` followed by (4 - rem) hex digits has just been consumed
+#[verifier::opaque]
+pub open spec fn in_escape(s: Seq<char>, rem: int) -> bool {
+    1 <= rem <= 4 && s.len() >= 6 - rem && s[s.len() - (4 - rem) - 2] == '\\' && s[s.len() - (4 - rem) - 1] == 'u'
+        && forall|k: int| s.len() - (4 - rem) <= k < s.len() ==> hexdigit(#[trigger] s[k])
+}
+/// `\uXXXX` complete
+#[verifier::opaque]
+pub open spec fn escape_complete(s: Seq<char>) -> bool {
+    s.len() >= 6 && s[s.len() - 6] == '\\' && s[s.len() - 5] == 'u' && forall|k: int| s.len() - 4 <= k < s.len() ==> hexdigit(#[trigger] s[k])
+}
+pub proof fn lemma_escape_step(s: Seq<char>, c: char)
+    ensures
+        c == '\\' ==> ends_with_backslash(s.push(c)),
+        (ends_with_backslash(s) && c == 'u') ==> in_escape(s.push(c), 4),
+        forall|rem: int| (#[trigger] in_escape(s, rem) && hexdigit(c) && rem > 1) ==> in_escape(s.push(c), rem - 1),
+        forall|rem: int| (#[trigger] in_escape(s, rem) && hexdigit(c) && rem <= 1) ==> escape_complete(s.push(c)),
+{
+    reveal(ends_with_backslash); reveal(in_escape); reveal(escape_complete);
+    let t = s.push(c);
+    assert forall|rem: int| (#[trigger] in_escape(s, rem) && hexdigit(c) && rem > 1) implies in_escape(t, rem - 1) by {
+        assert forall|k: int| t.len() - (4 - (rem - 1)) <= k < t.len() implies hexdigit(#[trigger] t[k]) by { if k < s.len() { assert(t[k] == s[k]); } }
+    }
+    assert forall|rem: int| (#[trigger] in_escape(s, rem) && hexdigit(c) && rem <= 1) implies escape_complete(t) by {
+        assert forall|k: int| t.len() - 4 <= k < t.len() implies hexdigit(#[trigger] t[k]) by { if k < s.len() { assert(t[k] == s[k]); } }
+    }
+}
+// ASCII chars take one byte: byte offsets of the six chars of a complete escape that ends at char index `read`
+pub proof fn lemma_escape_bytes(cs: Seq<char>, start: int, read: int)
+    requires 0 <= start <= read <= cs.len(), escape_complete(cs.subrange(start, read))
+    ensures
+        read >= 6,
+        byte_off(cs, read - 1) + 1 == byte_off(cs, read),
+        byte_off(cs, read - 4) + 4 == byte_off(cs, read),
+        byte_off(cs, read - 6) + 6 == byte_off(cs, read),
+        forall|i: int| 0 <= i < 4 ==> hexdigit(#[trigger] cs.subrange(read - 4, read)[i]),
+        byte_off(cs, read) <= byte_off(cs, cs.len() as int),
+        byte_off(cs, read - 6) >= 0,
+{
+    reveal(escape_complete);
+    let s = cs.subrange(start, read);
+    lemma_byte_off_monotone(cs, 0, read - 6);
+    assert forall|i: int| 0 <= i < 4 implies hexdigit(#[trigger] cs.subrange(read - 4, read)[i]) by {
+        assert(cs.subrange(read - 4, read)[i] == s[read - 4 + i - start]);
+    }
+    assert forall|k: int| read - 6 <= k < read implies utf8_len(#[trigger] cs[k]) == 1 by {
+        assert(cs[k] == s[k - start]);
+        if k >= read - 4 { assert(hexdigit(s[k - start])); }
+    }
+    reveal_with_fuel(byte_off, 7);
+    lemma_byte_off_monotone(cs, read, cs.len() as int);
+}
+pub proof fn lemma_byte_off_monotone(cs: Seq<char>, a: int, b: int)
+    requires 0 <= a <= b
+    ensures byte_off(cs, a) <= byte_off(cs, b)
+    decreases b - a
+{
+    if a < b { lemma_byte_off_monotone(cs, a, b - 1); }
+}
+
 /// what a successfully returned token must be: the right kind for its text, and maximal
 pub open spec fn token_ok(kind: TokenKind, s: Seq<char>, next: Option<char>) -> bool {
     match kind {
@@ -233,6 +318,8 @@ pub open spec fn state_inv(state: State, s: Seq<char>, kind: TokenKind) -> bool 
         State::ExponentIndicator => kind is Float && g_exp_indicator(s),
         State::ExponentSign => kind is Float && g_exp_sign(s),
         State::ExponentDigit => kind is Float && g_exp_digits(s),
+        State::StringLiteralBackslash => kind is StringValue && s.len() >= 1 && s[0] == '"' && ends_with_backslash(s),
+        State::StringLiteralEscapedUnicode(rem) => kind is StringValue && s.len() >= 1 && s[0] == '"' && in_escape(s, rem as int),
         _ => kind is StringValue && s.len() >= 1 && s[0] == '"',
     }
 }
@@ -293,8 +380,6 @@ impl<'a> Cursor<'a> {
 pub open spec fn item_text<'a>(r: Result<Token<'a>, Error>) -> Seq<char> { match r { Ok(t) => t.data@, Err(e) => e.data@ } }
 '''
 
-HEX_BLOCK_RE = r"(?s)let hex_end = self\.offset \+ 1;.*?\n                            continue;"
-HEX_BLOCK_NEW = "self.shim_check_unicode_escape();\n                            continue;"
 
 KIND_POST = ("ensures", "token_has_the_right_kind_and_is_maximal", "r is Ok ==> token_ok(r->Ok_0.kind, r->Ok_0.data@, next_char(&*final(self)))", ["C03"])
 ADV_POST = [
@@ -340,16 +425,23 @@ UNIT = {
     
         dict(file=LX, kind="fn", name="advance", container=r"Cursor<'a>", container_name="Cursor", wrap="impl<'a> Cursor<'a>",
              n_loops=1,
-             clauses=[("requires", "idle", "old(self).idle()")] + ADV_POST + [KIND_POST],
-             rewrites=[(HEX_BLOCK_RE, HEX_BLOCK_NEW, 1, "re"), (".to_string()", ".to_string_shim()", None)],
+             clauses=[("requires", "idle", "old(self).idle()"),
+                      ("requires", "source_is_the_model", "old(self).source@ == old(self).m@.chars && byte_off(old(self).m@.chars, old(self).m@.chars.len() as int) <= usize::MAX")] + ADV_POST + [KIND_POST],
+             rewrites=[("&self.source[hex_start..hex_end]", "str_slice(self.source, hex_start, hex_end)", 1),
+                       ("&self.source[escape_sequence_start..hex_end]", "str_slice(self.source, escape_sequence_start, hex_end)", 1),
+                       (".to_string()", ".to_string_shim()", None)],
              loops=[dict(invariant=[
                  ("wf", "self.m@.wf(), self.m@.chars == old(self).m@.chars, self.source == old(self).source, self.m@.start == old(self).m@.start"),
                  ("start_state", "state is Start ==> self.m@.eff() == self.m@.start && token.kind is Eof && token.data@ =~= Seq::<char>::empty()"),
                  ("other_states", "!(state is Start) ==> self.m@.start < self.m@.eff() && !(token.kind is Eof)"),
                  ("grammar_state", "state_inv(state, consumed(&*self), token.kind)"),
+                 ("source_is_the_model", "self.source@ == self.m@.chars && byte_off(self.m@.chars, self.m@.chars.len() as int) <= usize::MAX"),
+                 ("no_pushback_inside_escape", "state is StringLiteralEscapedUnicode ==> !self.m@.pending"),
              ], decreases="self.m@.measure()")],
              hints=[("body_start", None, "proof { reveal_strlit(\"\"); }"),
-                    ("before", "match state {", "proof { let s0 = self.m@.chars.subrange(self.m@.start as int, self.m@.read - 1); lemma_step(s0, c); assert(consumed(&*self) =~= s0.push(c)); }")],
+                    ("before", "match state {", "proof { let s0 = self.m@.chars.subrange(self.m@.start as int, self.m@.read - 1); lemma_step(s0, c); lemma_escape_step(s0, c); assert(consumed(&*self) =~= s0.push(c)); }"),
+                    ("before", "let hex_end = self.offset + 1;", "proof { lemma_escape_bytes(self.m@.chars, self.m@.start as int, self.m@.read as int); }"),
+                    ("after", "let hex = str_slice(self.source, hex_start, hex_end);", "proof { assert(hex@ =~= self.m@.chars.subrange(self.m@.read - 4, self.m@.read as int)); }")],
              props=["C03", "C01", "C02"]),
     ],
 }
